@@ -134,7 +134,7 @@ def skip_ws(m, i, end):
 
 
 _ITEM_KW = re.compile(
-    r'(?:pub(?:\s*\([^)]*\))?\s+)?(?:(?:default|unsafe|async|extern(?:\s*"[^"]*")?|const)\s+)*'
+    r'(?:pub(?:\s*\([^)]*\))?\s+)?(?:(?:default|unsafe|async|extern(?:\s*"[^"]*")?|const|spec|proof|open|closed|uninterp|broadcast|exec)\s+)*'
     r'(fn\b|struct\b|enum\b|union\b|impl\b|mod\b|use\b|const\b|static\b|type\b|trait\b|macro_rules!|extern\s+crate\b)')
 
 
